@@ -2,7 +2,8 @@
    which paths lead to a map, and the column of handles under a key.  Frame
    lemmas for the steps of __setitem__ and for handles.maps.insert(0, {}). *)
 From Coq Require Import ZArith List Bool Lia.
-From Desper Require Import Lib.Alist Tree.C11Model Tree.C11Lemmas Tree.C11Inv Tree.C16Model.
+From Desper Require Import Lib.Alist Tree.C11Model Tree.C11Lemmas Tree.C11Inv Tree.C16Model
+     Tree.C16Proofs.
 Import ListNotations.
 Open Scope Z_scope.
 
@@ -414,4 +415,168 @@ Proof.
       * apply W7; [|lia]. specialize (HB done t HW). lia.
       * intros q y Hq. destruct (W3 q y Hq) as [A|(_ & _ & A & _)]; [eauto|lia].
     + congruence.
+Qed.
+
+(* ---- the final assignment and the new layer ---------------------------------------------- *)
+Lemma adel_absent {A} k (l : list (Z * A)) : alookup k l = None -> adel k l = l.
+Proof.
+  induction l as [|[k' v] l IH]; cbn [alookup adel]; [reflexivity|].
+  destruct (k =? k'); [discriminate|]. intros H. now rewrite IH.
+Qed.
+
+Lemma list_eqb_Z_eq a b : list_eqb Z.eqb a b = true -> a = b.
+Proof. apply list_eqb_eq. intros x y H. now apply Z.eqb_eq. Qed.
+Lemma list_eqb_refl_Z a : list_eqb Z.eqb a a = true.
+Proof. apply list_eqb_refl. apply Z.eqb_refl. Qed.
+
+Lemma set_handle_paths used s P t last h :
+  Inv used s -> RootNone s -> walk s 0 P = Some t -> alookup last (m_maps (sm s t)) = None ->
+  let s' := set_final s t last (RH h) in
+  (forall q, walk s' 0 q = walk s 0 q) /\
+  (forall key, scol s' key =
+               if key_eqb key (P, last)
+               then h :: column last (List.tl (m_layers (sm s t)))
+               else scol s key) /\
+  (forall x n, lay0 s' x n = if (x =? t) && (n =? last) then Some h else lay0 s x n) /\
+  RootNone s' /\
+  (forall x, x <> t -> sm s' x = sm s x) /\
+  (forall x n, ncol s' x n =
+               if (x =? t) && (n =? last) then h :: column last (List.tl (m_layers (sm s t)))
+               else ncol s x n).
+Proof.
+  intros HI HRn HW HN. cbv zeta. unfold set_final.
+  set (r := sm s t).
+  set (rt := MR (m_parent r) (m_key r) (adel last (m_maps r)) (cm_set last h (m_layers r))).
+  set (s' := hput (mput s t rt) h (HR (Some t) (Some last))).
+  assert (Hsm : forall x, sm s' x = if x =? t then rt else sm s x) by reflexivity.
+  assert (HM : forall x, m_maps (sm s' x) = m_maps (sm s x)).
+  { intros x. rewrite Hsm. destruct (x =? t) eqn:E; [|reflexivity].
+    apply Z.eqb_eq in E. subst x. cbn [rt m_maps]. now apply adel_absent. }
+  assert (HWs : forall q, walk s' 0 q = walk s 0 q) by (intros q; now apply walk_same_maps).
+  assert (HNc : forall x n, ncol s' x n =
+            if (x =? t) && (n =? last) then h :: column last (List.tl (m_layers (sm s t)))
+            else ncol s x n).
+  { intros x n. unfold ncol. rewrite Hsm. destruct (x =? t) eqn:E; [|reflexivity].
+    apply Z.eqb_eq in E. subst x. cbn [rt m_layers andb]. fold r.
+    destruct (m_layers r) as [|l0 ls]; cbn [cm_set List.tl].
+    - rewrite column_cons. cbn [alookup]. destruct (n =? last); reflexivity.
+    - rewrite !column_cons, alookup_aset. destruct (n =? last) eqn:E2; [|reflexivity].
+      apply Z.eqb_eq in E2. now subst n. }
+  split; [exact HWs|]. split; [|split; [|split; [|split; [|exact HNc]]]].
+  - intros [q n]. unfold scol. cbn [fst snd]. rewrite HWs. unfold key_eqb. cbn [fst snd].
+    destruct (walk s 0 q) as [x|] eqn:E.
+    + rewrite HNc. destruct (x =? t) eqn:Ex.
+      * apply Z.eqb_eq in Ex. subst x.
+        rewrite (unique_path used s 0 HI HRn q P t E HW).
+        rewrite (list_eqb_refl_Z P). cbn [andb]. reflexivity.
+      * cbn [andb]. destruct (list_eqb Z.eqb q P) eqn:EL; [|reflexivity].
+        apply list_eqb_Z_eq in EL. subst q. rewrite HW in E. injection E as <-.
+        rewrite Z.eqb_refl in Ex. discriminate.
+    + destruct (list_eqb Z.eqb q P) eqn:EL; [|reflexivity].
+      apply list_eqb_Z_eq in EL. subst q. congruence.
+  - intros x n. unfold lay0. rewrite Hsm. destruct (x =? t) eqn:E; [|reflexivity].
+    apply Z.eqb_eq in E. subst x. cbn [rt m_layers andb]. fold r.
+    destruct (m_layers r) as [|l0 ls]; cbn [cm_set].
+    + cbn [alookup]. destruct (n =? last); reflexivity.
+    + rewrite alookup_aset. destruct (n =? last); reflexivity.
+  - unfold RootNone. rewrite Hsm. destruct (0 =? t) eqn:E; [|exact HRn].
+    apply Z.eqb_eq in E. subst t. cbn [rt m_parent]. exact HRn.
+  - intros x Hx. rewrite Hsm. destruct (x =? t) eqn:E; [apply Z.eqb_eq in E; contradiction|].
+    reflexivity.
+Qed.
+
+Lemma set_map_paths used s P t last c :
+  Inv used s -> RootNone s -> walk s 0 P = Some t ->
+  alookup last (m_maps (sm s t)) = None -> ncol s t last = [] ->
+  sm s c = m_default -> (forall M n, ~ child_m s M n c) -> c <> t -> c <> 0 ->
+  let s' := set_final s t last (RM c) in
+  (forall q x, walk s 0 q = Some x -> walk s' 0 q = Some x) /\
+  (forall q x, walk s' 0 q = Some x ->
+     walk s 0 q = Some x \/ (q = P ++ [last] /\ walk s 0 q = None /\ x = c)) /\
+  walk s' 0 (P ++ [last]) = Some c /\
+  (forall x n, ncol s' x n = ncol s x n) /\
+  (forall x n, lay0 s' x n = lay0 s x n) /\
+  RootNone s' /\
+  (forall x, x <> t -> x <> c -> sm s' x = sm s x) /\
+  sh s' = sh s.
+Proof.
+  intros HI HRn HW HN HC Hcd HNC Hct Hc0. cbv zeta. unfold set_final.
+  set (r := sm s t).
+  set (rt := MR (m_parent r) (m_key r) (aset last c (m_maps r)) (cm_pop_all last (m_layers r))).
+  set (s2 := mput s t rt).
+  set (s' := mput s2 c (MR (Some t) (Some last) (m_maps (sm s2 c)) (m_layers (sm s2 c)))).
+  assert (Hs2c : sm s2 c = m_default).
+  { unfold s2. cbn [sm mput]. destruct (c =? t) eqn:E; [apply Z.eqb_eq in E; contradiction|].
+    exact Hcd. }
+  assert (Hsm : forall x, sm s' x =
+            if x =? c then MR (Some t) (Some last) [] [[]]
+            else if x =? t then rt else sm s x).
+  { intros x. unfold s'. cbn [sm mput]. rewrite Hs2c. cbn [m_maps m_layers m_default].
+    destruct (x =? c); reflexivity. }
+  assert (HM : forall x, m_maps (sm s' x) =
+            if x =? t then aset last c (m_maps (sm s t))
+            else if x =? c then [] else m_maps (sm s x)).
+  { intros x. rewrite Hsm. destruct (x =? t) eqn:Et.
+    - apply Z.eqb_eq in Et. subst x.
+      destruct (t =? c) eqn:E; [apply Z.eqb_eq in E; congruence|]. reflexivity.
+    - destruct (x =? c); reflexivity. }
+  pose proof (walk_plus s s' t last c HM HN Hct HNC) as HP.
+  assert (HNone : walk s 0 (P ++ [last]) = None).
+  { rewrite walk_app, HW. cbn [walk]. now rewrite HN. }
+  split; [|split; [|split; [|split; [|split; [|split; [|split]]]]]].
+  - intros q x Hq. apply HP; [congruence|]. now left.
+  - intros q x Hq. apply HP in Hq; [|congruence].
+    destruct Hq as [Hq|(q1 & -> & H1 & ->)]; [now left|]. right.
+    rewrite (unique_path used s 0 HI HRn q1 P t H1 HW). auto.
+  - apply HP; [congruence|]. right. exists P. auto.
+  - intros x n. unfold ncol. rewrite Hsm. destruct (x =? c) eqn:Ec.
+    + apply Z.eqb_eq in Ec. subst x. now rewrite Hcd.
+    + destruct (x =? t) eqn:Et; [|reflexivity]. apply Z.eqb_eq in Et. subst x.
+      cbn [rt m_layers]. now apply ncol_pop.
+  - intros x n. unfold lay0 at 1. rewrite Hsm. destruct (x =? c) eqn:Ec.
+    + apply Z.eqb_eq in Ec. subst x. unfold lay0. now rewrite Hcd.
+    + destruct (x =? t) eqn:Et; [|reflexivity]. apply Z.eqb_eq in Et. subst x.
+      cbn [rt m_layers]. now apply lay0_pop.
+  - unfold RootNone. rewrite Hsm.
+    destruct (0 =? c) eqn:Ec; [apply Z.eqb_eq in Ec; congruence|].
+    destruct (0 =? t) eqn:Et; [|exact HRn]. apply Z.eqb_eq in Et. subst t. exact HRn.
+  - intros x Hxt Hxc. rewrite Hsm.
+    destruct (x =? c) eqn:Ec; [apply Z.eqb_eq in Ec; contradiction|].
+    destruct (x =? t) eqn:Et; [apply Z.eqb_eq in Et; contradiction|reflexivity].
+  - reflexivity.
+Qed.
+
+Lemma push_paths s t :
+  let s' := py_push s t in
+  (forall q, walk s' 0 q = walk s 0 q) /\
+  (forall x n, ncol s' x n = ncol s x n) /\
+  (forall key, scol s' key = scol s key) /\
+  (forall n, lay0 s' t n = None) /\
+  (forall x, x <> t -> sm s' x = sm s x) /\
+  m_layers (sm s' t) = [] :: m_layers (sm s t) /\
+  (RootNone s -> RootNone s') /\
+  sh s' = sh s.
+Proof.
+  cbv zeta. unfold py_push.
+  set (r := sm s t).
+  set (s' := mput s t (MR (m_parent r) (m_key r) (m_maps r) ([] :: m_layers r))).
+  assert (Hsm : forall x, sm s' x = if x =? t then MR (m_parent r) (m_key r) (m_maps r)
+                                                        ([] :: m_layers r) else sm s x)
+    by reflexivity.
+  assert (HWs : forall q, walk s' 0 q = walk s 0 q).
+  { intros q. apply walk_same_maps. intros x. rewrite Hsm.
+    destruct (x =? t) eqn:E; [|reflexivity]. apply Z.eqb_eq in E. now subst x. }
+  assert (HNc : forall x n, ncol s' x n = ncol s x n).
+  { intros x n. unfold ncol. rewrite Hsm. destruct (x =? t) eqn:E; [|reflexivity].
+    apply Z.eqb_eq in E. subst x. reflexivity. }
+  split; [exact HWs|]. split; [exact HNc|]. split; [|split; [|split; [|split; [|split]]]].
+  - intros [q n]. unfold scol. cbn [fst snd]. rewrite HWs.
+    destruct (walk s 0 q); [apply HNc|reflexivity].
+  - intros n. unfold lay0. rewrite Hsm, Z.eqb_refl. reflexivity.
+  - intros x Hx. rewrite Hsm. destruct (x =? t) eqn:E; [apply Z.eqb_eq in E; contradiction|].
+    reflexivity.
+  - rewrite Hsm, Z.eqb_refl. reflexivity.
+  - unfold RootNone. rewrite Hsm. destruct (0 =? t) eqn:E; [|auto].
+    apply Z.eqb_eq in E. subst t. auto.
+  - reflexivity.
 Qed.
